@@ -197,10 +197,35 @@ def _branch_of(prog, module, facts):
     return at
 
 
+def _no_shared_default_containers(ctx, modules):
+    """a list/dict/set default argument that is stored into the object or mutated is shared by every call that omits the
+    argument: what one decode collected shows up in the next"""
+    n = 0
+    for mn in modules:
+        m = ctx.prog.module(mn)
+        for fn in [x for x in ast.walk(m.tree) if isinstance(x, ast.FunctionDef)]:
+            args = fn.args.args
+            defs = fn.args.defaults
+            for a, d in list(zip(args[len(args) - len(defs):], defs)) + [(a_, d_) for a_, d_ in zip(fn.args.kwonlyargs, fn.args.kw_defaults) if d_ is not None]:
+                n += 1
+                if not (isinstance(d, (ast.List, ast.Dict, ast.Set)) or (isinstance(d, ast.Call) and norm(d.func) in ("list", "dict", "set"))):
+                    continue
+                for x in ast.walk(fn):
+                    kept = isinstance(x, ast.Assign) and isinstance(x.value, ast.Name) and x.value.id == a.arg and not isinstance(x.targets[0], ast.Name)
+                    grown = isinstance(x, ast.Call) and isinstance(x.func, ast.Attribute) and isinstance(x.func.value, ast.Name) and x.func.value.id == a.arg \
+                        and x.func.attr in ("append", "extend", "update", "add", "insert", "pop", "remove", "clear", "setdefault")
+                    if kept or grown:
+                        ctx.bad("%s.%s:shared-default[%s]" % (mn, fn.name, a.arg), where(m, x),
+                                "the default %s of parameter %s is one object for all calls and is %s here: values accumulate across instances" % (norm(d), a.arg, "stored" if kept else "modified"))
+    ctx.ok("schema modules:no-shared-default-containers", "py34/bacpypes/constructeddata.py:1")
+    ctx.count("default arguments inspected", n)
+
+
 @rule("C03.R5", "the generic interpreter is symmetric: what encode wraps in opening/closing tags decode unwraps with the same tag class and number; required/optional decisions agree",
       floor=20, engines="E1 paths over Sequence/Choice encode+decode")
 def r5(ctx):
     prog = ctx.prog
+    _no_shared_default_containers(ctx, ["constructeddata", "primitivedata", "apdu", "basetypes"])
     for cname in ("Sequence", "Choice"):
         c = prog.cls("constructeddata", cname)
         m = c.module
@@ -208,6 +233,22 @@ def r5(ctx):
         dec = c.methods.get("decode")
         if enc is None or dec is None:
             raise AnchorMissing("%s.encode/decode" % cname)
+        # ---- context number 0 is a context number: no decision about an element's context may tell 0 from another number
+        evc = Evaluator(prog, m, c)
+        for fn in (enc, dec):
+            nt = 0
+            for n in ast.walk(fn):
+                t = n.test if isinstance(n, (ast.If, ast.While, ast.IfExp)) else None
+                if t is None:
+                    continue
+                keys = {norm(x) for x in ast.walk(t) if isinstance(x, ast.Attribute) and x.attr == "context"}
+                for k in keys:
+                    nt += 1
+                    r0, r3, rn = evc.eval3(t, {k: 0}), evc.eval3(t, {k: 3}), evc.eval3(t, {k: None})
+                    ctx.check("%s.%s:context-0-is-a-context#%d" % (cname, fn.name, nt), r0 == r3, where(m, n),
+                              "the test %s comes out %s for context number 0 but %s for 3: elements tagged [0] are then treated as untagged" % (norm(t)[:80], r0, r3))
+            if nt < 3:
+                raise ShapeError("%s.%s: only %d context decisions found" % (cname, fn.name, nt))
         # ---- encode: on every path through the element loop body, OpeningTag(ctx) count == ClosingTag(ctx) count, value encoded in between
         loops = [l for l in walk_shallow(enc) if isinstance(l, ast.For) and norm(l.iter).endswith("Elements")]
         if len(loops) != 1:
